@@ -501,36 +501,7 @@ func checkC09(c *Ctx, r *Report) {
 				o.Bad("readSection does not check the section terminator against \"\\r\\n\"")
 			}
 		}
-		if rs != nil {
-			// the terminator is consumed on every successful path (whatever the reader has buffered)
-			o = r.Add("C09-delims", "fbb.readSection", "terminator consumed before every successful return", c.pos(rs.Pos()))
-			var term []ssa.CallInstruction
-			for _, ci := range callsTo(rs, false, "bufio.Reader.ReadString", "bufio.Reader.ReadBytes", "bufio.Reader.ReadLine", "bufio.Reader.Discard") {
-				if ci.Common().Args[0] == ssa.Value(rs.Params[0]) {
-					term = append(term, ci)
-				}
-			}
-			good := len(term) > 0
-			for _, ret := range returnsOf(rs) {
-				if isErrorExit(ret) {
-					continue
-				}
-				dom := false
-				for _, t := range term {
-					if instrDominates(t, ret) {
-						dom = true
-					}
-				}
-				if !dom {
-					good = false
-				}
-			}
-			if good {
-				o.OK("every nil-error return is dominated by the read of the line that terminates the section")
-			} else {
-				o.Bad("readSection can return successfully without consuming the section terminator (e.g. when nothing is buffered yet): with a reader that delivers the data in chunks the CRLF becomes the start of the next attachment")
-			}
-		}
+		sectionTermRule(c, r, "C09-delims")
 		hw := c.Func(pkg, "(Header).Write")
 		o = r.Add("C09-delims", "fbb.Header.Write", "header lines end in CRLF", c.pos(write.Pos()))
 		if hw == nil {
@@ -729,4 +700,41 @@ func checkC09(c *Ctx, r *Report) {
 		}
 	}
 	r.NotCov = append(r.NotCov, "round-trip equality over all messages", "whitespace trimming of header values", "address normalisation", "word-decoding of arbitrary subjects/file names")
+}
+
+// sectionTermRule: readSection consumes the line that terminates a section on every successful
+// path, whatever the reader happens to have buffered and whatever the section's size.
+func sectionTermRule(c *Ctx, r *Report, rule string) {
+	rs := c.Func("fbb", "readSection")
+	if rs == nil {
+		r.Fail(rule, "anchor fbb.readSection not found")
+		return
+	}
+	o := r.Add(rule, "fbb.readSection", "terminator consumed before every successful return", c.pos(rs.Pos()))
+	var term []ssa.CallInstruction
+	for _, ci := range callsTo(rs, false, "bufio.Reader.ReadString", "bufio.Reader.ReadBytes", "bufio.Reader.ReadLine", "bufio.Reader.Discard") {
+		if ci.Common().Args[0] == ssa.Value(rs.Params[0]) {
+			term = append(term, ci)
+		}
+	}
+	good := len(term) > 0
+	for _, ret := range returnsOf(rs) {
+		if isErrorExit(ret) {
+			continue
+		}
+		dom := false
+		for _, t := range term {
+			if instrDominates(t, ret) {
+				dom = true
+			}
+		}
+		if !dom {
+			good = false
+		}
+	}
+	if good {
+		o.OK("every nil-error return is dominated by the read of the line that terminates the section")
+	} else {
+		o.Bad("readSection can return successfully without consuming the section terminator (e.g. when nothing is buffered yet, or for an empty section): the CRLF becomes the start of the next attachment, which is then corrupted or refused")
+	}
 }
